@@ -100,7 +100,9 @@ def run_unit(prop, u, tier, ctx, here):
     target = os.path.join(here, "build", "kani-target")
     hs = [h for h in u["harnesses"] if not (h.get("tier") == "thorough" and tier != "thorough")]
     if not hs:
-        rec["status"] = "verified"
+        # every harness of this unit belongs to the thorough tier: nothing ran, nothing is claimed for this run
+        rec["status"] = "skipped"
+        rec["reason"] = "all harnesses of this unit are thorough-tier only"
         rec["harnesses"] = []
         return rec
     # first harness alone (compiles the crate), the rest in parallel
